@@ -10,14 +10,16 @@ Section Sel.
   Variable node : Type.
   Variable key_of : node -> nkey.
   Variable pmatch : N -> node -> bool.
+  Variable pa : bool.      (* per-alternative variant of findTemplate, see TmplDefs.per_alt *)
 
   Notation tmatch := (tmatch node pmatch).
-  Notation find_in_list := (find_in_list node pmatch).
+  Notation ematch := (ematch node pmatch pa).
+  Notation find_in_list := (find_in_list node pmatch pa).
   Notation applicable := (applicable node pmatch).
   Notation spec_choice := (spec_choice node pmatch).
 
   Definition ok (mode : option N) (n : node) (e : entry) : bool :=
-    mode_eqb mode (t_mode (e_tmpl e)) && tmatch (e_tmpl e) n.
+    mode_eqb mode (t_mode (e_tmpl e)) && ematch e n.
 
   Lemma first_matching_some : forall alts n a,
     first_matching node pmatch alts n = Some a -> In a alts /\ pmatch (a_pat a) n = true.
@@ -212,11 +214,11 @@ Section Sel.
     find_in_list (locate (build_tables ts) (key_of n)) mode n.
 
   Lemma level_spec : forall ts prec mode n,
-    level_uniform ts = true -> level_filed ts n = true ->
+    pa = true \/ level_uniform ts = true -> level_filed ts n = true ->
     spec_choice (rules_of_level prec 0 ts) mode n (level_find ts mode n).
   Proof.
     intros ts prec mode n Hu Hf. unfold level_find, level_uniform, level_filed in *.
-    rewrite forallb_forall in Hu, Hf.
+    rewrite forallb_forall in Hf.
     (* an applicable rule has an ok entry in the node's list *)
     assert (Hrule : forall r, In r (rules_of_level prec 0 ts) -> applicable mode n r = true ->
               exists e, In (e, r) (pairs prec 0 ts 0) /\ In e (locate (build_tables ts) (key_of n)) /\ ok mode n e = true).
@@ -231,12 +233,32 @@ Section Sel.
           apply in_map_iff. exists (e, r). split; [reflexivity | exact He].
         + specialize (Hf _ h7). rewrite forallb_forall in Hf. specialize (Hf _ h3).
           rewrite Hp in Hf. exact Hf.
-      - unfold ok. rewrite Hm. cbn. apply tmatch_iff. exists (e_alt e). split; assumption. }
+      - unfold ok, TmplDefs.ematch. rewrite Hm. cbn. destruct pa; [exact Hp|].
+        apply tmatch_iff. exists (e_alt e). split; assumption. }
     destruct (find_in_list (locate (build_tables ts) (key_of n)) mode n) as [t|] eqn:E; cbn.
     - destruct (find_in_list_some _ _ _ _ (locate_sorted ts (key_of n)) E) as (e & He & Ht & Hok & Hmax).
       apply locate_contents in He. destruct He as [HeE _]. unfold entries in HeE.
       destruct (in_pairs_of_entry ts prec 0%nat 0%N e HeE) as [re Hre].
-      unfold ok in Hok. apply andb_true_iff in Hok. destruct Hok as [Hmode Htm].
+      unfold ok, TmplDefs.ematch in Hok. apply andb_true_iff in Hok. destruct Hok as [Hmode Htm].
+      destruct pa eqn:Epa.
+      { (* per-alternative variant: the entry's own rule is the maximum *)
+        destruct (pairs_facts _ _ _ _ _ _ Hre) as (h1 & h2 & h3 & h4 & h5 & h6 & h7 & h8 & h9).
+        exists re. split.
+        { rewrite (rules_of_level_pairs ts prec 0%nat 0%N). apply in_map_iff. exists (e, re). split; [reflexivity | exact Hre]. }
+        split.
+        { unfold TmplDefs.applicable. rewrite h1, h2, Hmode, Htm. reflexivity. }
+        split; [congruence|].
+        intros r2 Hr2 Ha2.
+        destruct (Hrule r2 Hr2 Ha2) as (e2 & Hp2 & Hin2 & Hok2).
+        specialize (Hmax e2 Hin2 Hok2).
+        destruct (pairs_facts _ _ _ _ _ _ Hp2) as (k1 & k2 & k3 & k4 & k5 & k6 & k7 & k8 & k9).
+        unfold rule_le. right. split; [congruence|].
+        unfold ge_entry in Hmax. rewrite k5, h5.
+        destruct Hmax as [Hlt|[Heq Hle]]; [left; exact Hlt|].
+        right. split; [symmetry; exact Heq|].
+        destruct (Nat.le_gt_cases (r_pos r2) (r_pos re)) as [Hc|Hc]; [exact Hc|].
+        pose proof (pairs_mono _ _ _ _ _ _ _ _ Hre Hp2 Hc). lia. }
+      destruct Hu as [Hu|Hu]; [discriminate|]. rewrite forallb_forall in Hu.
       apply tmatch_iff in Htm. destruct Htm as (a & Ha & Hpa).
       destruct (pairs_sibling _ _ _ _ _ _ a Hre Ha) as (e' & r' & Hp' & Hpos' & Htm' & Halt').
       destruct (pairs_facts _ _ _ _ _ _ Hre) as (h1 & h2 & h3 & h4 & h5 & h6 & h7 & h8 & h9).
@@ -295,7 +317,7 @@ Section Sel.
   Qed.
 
   Definition levels_guard (ls : list (list template)) (n : node) : Prop :=
-    forall ts, In ts ls -> level_uniform ts = true /\ level_filed ts n = true.
+    forall ts, In ts ls -> (pa = true \/ level_uniform ts = true) /\ level_filed ts n = true.
 
   Lemma levels_spec : forall ls base mode n,
     levels_guard ls n ->
